@@ -106,4 +106,11 @@ let () = serve (fun fn req ->
     let frags = SL.map jbytes (jlist (jfield req "frags")) in
     let (s, outs) = srv_run rl store fresh_server frags in
     JObj ["open", of_bool s.s_open; "buf", of_bytes s.s_buf; "outs", of_list of_sout outs]
+  | "tserver_trace" ->
+    let idle = jz (jfield req "idle") and trans = jz (jfield req "transfer") in
+    let evs = SL.map (fun j -> match jlist j with
+        | [JStr "start"] -> TvStart | [JStr "done"] -> TvDone | [JStr "other"] -> TvOther
+        | [JStr "adv"; n] -> TvAdvance (jz n)
+        | _ -> raise (Model_error "tev")) (jlist (jfield req "events")) in
+    of_list of_bool (tsrv_trace idle trans (tsrv_fresh idle Z0) evs)
   | _ -> raise (Model_error ("unknown fn " ^ fn)))
